@@ -18,8 +18,14 @@ struct Op {
     VertexIndex i = 0, j = 0;
     unsigned k = 0;
     bool force = false;
+    bool rejected = false; // out-of-range index or shrinking resize: must throw, denotes no change
     std::string str() const {
         std::ostringstream o;
+        if (rejected) o << "rejected: ";
+        if (rejected && kind == RESIZE) {
+            o << "resize(" << k << ")";
+            return o.str();
+        }
         switch (kind) {
         case ADD: o << "addEdge(" << i << "," << j << ")"; break;
         case ADDREC: o << "addReciprocalEdge(" << i << "," << j << ")"; break;
@@ -80,6 +86,7 @@ template <class G> struct Subject {
     std::vector<Op> hist;
     std::map<Edge, int> ghosts;
     unsigned removals = 0;
+    bool notRejected = false; // a call that had to be rejected was not (C07's verdict): the history is abandoned
     explicit Subject(unsigned n0) : g(n0) {
         m.directed = directed;
         m.n = n0;
@@ -107,6 +114,7 @@ template <class G> struct Subject {
         }
     }
     bool isNoop(const Op &op) const {
+        if (op.rejected) return true;
         switch (op.kind) {
         case ADDM:
         case ADDRECM: return op.k == 0;
@@ -154,10 +162,14 @@ template <class G> struct Subject {
             case LOOPS: g.removeSelfLoops(); break;
             case VERTEX: g.removeVertexFromEdgeList(op.i); break;
             case CLEAR: g.clearEdges(); break;
-            case RESIZE: g.resize(g.getSize() + op.k); break;
+            case RESIZE: g.resize(op.rejected ? op.k : g.getSize() + op.k); break;
             case DEDUP: g.removeDuplicateEdges(); break;
             }
         }, &what);
+        if (op.rejected) {
+            if (ex != (op.kind == RESIZE ? EX_INVALID_ARGUMENT : EX_OUT_OF_RANGE)) notRejected = true;
+            return "";
+        }
         if (ex != EX_NONE) return std::string("valid call threw ") + excName(ex) + " (" + what + ")";
         switch (op.kind) {
         case ADD: modelAdd(op.i, op.j, 1, false); break;
@@ -230,6 +242,7 @@ template <class G> struct Monitor {
     std::string cls;
     ObsCounters oc;
     uint64_t callsByKind[KIND_COUNT] = {0};
+    uint64_t rejectedCalls = 0, rejectedThenGrown = 0, abandonedNotRejected = 0;
     uint64_t calls = 0, multPresent = 0, multAbsent = 0, totals = 0, noopChecks = 0, bigMultiplicities = 0, scaleHistories = 0, maxDegreeSeen = 0, longHistories = 0;
     uint64_t after[G_COUNT] = {0};
     uint64_t setOn[4] = {0}; // setEdgeMultiplicity on edges of multiplicity 0,1,2,>2
@@ -246,6 +259,10 @@ template <class G> struct Monitor {
         R.count("mult_reads_absent_pair", multAbsent);
         R.count("total_edge_number_comparisons", totals);
         R.count("noop_exactness_checks", noopChecks);
+        R.count("rejected_calls_inside_histories", rejectedCalls);
+        R.count("rejected_calls_followed_by_resize_making_the_index_valid", rejectedThenGrown);
+        R.count("histories_abandoned_call_not_rejected", abandonedNotRejected);
+        rejectedCalls = rejectedThenGrown = abandonedNotRejected = 0;
         R.count("long_histories_2000_to_4500_calls", longHistories);
         longHistories = 0;
         R.count("scale_histories_12_to_70_vertices", scaleHistories);
@@ -319,11 +336,31 @@ template <class G> struct Monitor {
 
     // would this call push a multiplicity past UINT_MAX (either orientation of a reciprocal add)?
     static bool wouldOverflow(const Subject<G> &s, const Op &op) {
+        if (op.rejected) return false;
         if (!(op.kind == ADD || op.kind == ADDREC || op.kind == ADDM || op.kind == ADDRECM)) return false;
         uint64_t k = (op.kind == ADD || op.kind == ADDREC) ? 1 : op.k;
         bool both = op.kind == ADDREC || op.kind == ADDRECM;
         uint64_t extra = (both && op.i == op.j) ? k : 0; // a reciprocal add on a self-loop adds twice
         return (uint64_t)s.m.mult(op.i, op.j) + k + extra > 0xffffffffULL || (both && (uint64_t)s.m.mult(op.j, op.i) + k > 0xffffffffULL);
+    }
+    // a call the library must reject (see pickRejected), drawn from the calls the property lists
+    Op genRejected(Rng &r, const Subject<G> &s, unsigned &growBy) {
+        Op op;
+        op.rejected = true;
+        RejectedArgs x = pickRejected(r, s.m.n);
+        growBy = x.growBy;
+        if (x.shrink) {
+            op.kind = RESIZE;
+            op.k = x.newSize;
+            return op;
+        }
+        op.i = x.a;
+        op.j = x.b;
+        static const int kinds[] = {ADD, ADDM, ADDM, REMOVE, REMOVEM, SETM, SETM, SETM0, VERTEX, ADDREC, ADDRECM};
+        op.kind = kinds[r.u(directed ? 11 : 9)];
+        op.k = op.kind == SETM0 ? 0 : 1 + r.u(4);
+        if (op.kind == VERTEX && op.i < s.m.n) op.i = op.j;
+        return op;
     }
     Op gen(Rng &r, Subject<G> &s, PairPicker &pp, unsigned style, unsigned step, unsigned len, unsigned maxN) {
         Op op;
@@ -419,6 +456,8 @@ template <class G> struct Monitor {
         Subject<G> s(n0);
         Op prevOp;
         bool havePrev = false;
+        unsigned pendingGrow = 0;
+        bool withRejected = sub % 3 == 1; // every third history has calls in it that the library must reject
         R.describeCase = [&] {
             return "{\"class\": " + q(cls) + ", \"start_size\": " + std::to_string(n0) + ", \"history\": " + s.histJson() + ", \"model_after\": " + q(s.m.str()) + "}";
         };
@@ -431,18 +470,38 @@ template <class G> struct Monitor {
         for (unsigned step = 0; step < len; ++step) {
             Op op = gen(r, s, pp, style, step, len, maxN);
             if (havePrev && r.chance(1, 12) && !wouldOverflow(s, prevOp)) op = prevOp; // the same call twice in a row (unless it would leave the 32-bit multiplicity range)
-            prevOp = op;
-            havePrev = true;
-            bool noop = s.isNoop(op) && (op.kind == REMOVE || op.kind == REMOVEM || op.kind == SETM0) && !s.m.has(op.i, op.j); // removing an absent edge changes nothing
+            if (withRejected) {
+                if (pendingGrow) {
+                    op = Op();
+                    op.kind = RESIZE;
+                    op.k = pendingGrow;
+                    pendingGrow = 0;
+                    ++rejectedThenGrown;
+                } else if (r.chance(1, checkEvery > 1 ? 40 : 9)) {
+                    unsigned growBy = 0;
+                    op = genRejected(r, s, growBy);
+                    ++rejectedCalls;
+                    if (growBy && s.m.n + growBy <= maxN + 4 && r.chance(2, 3)) pendingGrow = growBy;
+                }
+            }
+            if (!op.rejected) {
+                prevOp = op;
+                havePrev = true;
+            }
+            bool noop = !op.rejected && s.isNoop(op) && (op.kind == REMOVE || op.kind == REMOVEM || op.kind == SETM0) && !s.m.has(op.i, op.j); // removing an absent edge changes nothing
             std::vector<std::vector<VertexIndex>> before;
             if (noop) before = orderedLists(s.g);
-            if (op.kind == SETM || op.kind == SETM0) {
+            if (!op.rejected && (op.kind == SETM || op.kind == SETM0)) {
                 unsigned cur = s.m.mult(op.i, op.j);
                 ++setOn[cur > 3 ? 3 : cur];
             }
             std::string err = s.apply(op);
             ++calls;
             ++callsByKind[op.kind];
+            if (s.notRejected) {
+                ++abandonedNotRejected;
+                return;
+            }
             if (!err.empty()) {
                 R.violation(cls + "/" + kindName(op.kind) + "/exception", err);
                 return;
